@@ -90,3 +90,61 @@ Proof.
     | exact tbl_ext_enum | exact tbl_snapshot | exact tbl_anchor_types | exact tbl_qualifiers
     | exact tbl_field_keys | exact (proj1 tbl_qualifier_fields) | exact (proj1 tbl_seps) | exact (proj2 tbl_seps)].
 Qed.
+
+(* namespace / scheme_version given explicitly: the defaults spelled out change nothing; anything else never yields a
+   value - so every value prints with the constants SWHID_NAMESPACE / SWHID_VERSION that print_core uses *)
+Lemma nv_bad_false : forall ns ver, nv_bad ns ver = false ->
+  (ns = None \/ ns = Some SWHID_NAMESPACE) /\ (ver = None \/ ver = Some SWHID_VERSION).
+Proof.
+  intros ns ver H. unfold nv_bad in H. apply Bool.orb_false_iff in H. destruct H as [H1 H2]. split.
+  - destruct ns as [n|]; [right | left; reflexivity]. apply Bool.negb_false_iff in H1. apply beqb_eq in H1. subst. reflexivity.
+  - destruct ver as [z|]; [right | left; reflexivity]. apply Bool.negb_false_iff in H2. apply Z.eqb_eq in H2. subst. reflexivity.
+Qed.
+
+Lemma nv_bad_defaults : forall ns ver,
+  (ns = None \/ ns = Some SWHID_NAMESPACE) -> (ver = None \/ ver = Some SWHID_VERSION) -> nv_bad ns ver = false.
+Proof.
+  intros ns ver [H1|H1] [H2|H2]; subst; unfold nv_bad; cbn [negb orb]; rewrite ?beqb_refl, ?Z.eqb_refl; reflexivity.
+Qed.
+
+Lemma P_C08_explicit_namespace_version :
+  forall (ns : option text) (ver : option Z) (ty : text) (oid : bytes),
+  (* the defaults, spelled out or not: exactly the plain constructors *)
+  ((ns = None \/ ns = Some SWHID_NAMESPACE) -> (ver = None \/ ver = Some SWHID_VERSION) ->
+     mk_core_nv ns ver ty oid = mk_core ty oid /\ mk_ext_nv ns ver ty oid = mk_ext ty oid /\
+     forall origin visit anchor path lines,
+       mk_q_nv ns ver ty oid origin visit anchor path lines = mk_q ty oid origin visit anchor path lines) /\
+  (* a value was built: the namespace and the version are the defaults *)
+  (forall c, mk_core_nv ns ver ty oid = Ok c \/ mk_ext_nv ns ver ty oid = Ok c ->
+     (ns = None \/ ns = Some SWHID_NAMESPACE) /\ (ver = None \/ ver = Some SWHID_VERSION)) /\
+  (forall origin visit anchor path lines v, mk_q_nv ns ver ty oid origin visit anchor path lines = Ok v ->
+     (ns = None \/ ns = Some SWHID_NAMESPACE) /\ (ver = None \/ ver = Some SWHID_VERSION)) /\
+  (* anything else fails with the enum converter's ValueError or with ValidationError, whatever the other arguments *)
+  (nv_bad ns ver = true ->
+     (mk_core_nv ns ver ty oid = Err EValue \/ mk_core_nv ns ver ty oid = Err EValidation) /\
+     (mk_ext_nv ns ver ty oid = Err EValue \/ mk_ext_nv ns ver ty oid = Err EValidation) /\
+     forall origin visit anchor path lines,
+       mk_q_nv ns ver ty oid origin visit anchor path lines = Err EValue \/
+       mk_q_nv ns ver ty oid origin visit anchor path lines = Err EValidation).
+Proof.
+  intros ns ver ty oid. repeat split.
+  - unfold mk_core_nv, mk_simple_nv, mk_core, mk_simple. rewrite (nv_bad_defaults ns ver H H0).
+    destruct (negb (mem_bytes ty (enum_values OBJECT_TYPES))); reflexivity.
+  - unfold mk_ext_nv, mk_simple_nv, mk_ext, mk_simple. rewrite (nv_bad_defaults ns ver H H0).
+    destruct (negb (mem_bytes ty (enum_values EXTENDED_OBJECT_TYPES))); reflexivity.
+  - intros. unfold mk_q_nv, mk_q. rewrite (nv_bad_defaults ns ver H H0).
+    destruct (negb (mem_bytes ty (enum_values OBJECT_TYPES))); reflexivity.
+  - destruct H as [H|H]; unfold mk_core_nv, mk_ext_nv, mk_simple_nv in H;
+      match type of H with (if ?b then _ else _) = _ => destruct b; [discriminate|] end;
+      destruct (nv_bad ns ver) eqn:E; try discriminate; exact (proj1 (nv_bad_false ns ver E)).
+  - destruct H as [H|H]; unfold mk_core_nv, mk_ext_nv, mk_simple_nv in H;
+      match type of H with (if ?b then _ else _) = _ => destruct b; [discriminate|] end;
+      destruct (nv_bad ns ver) eqn:E; try discriminate; exact (proj2 (nv_bad_false ns ver E)).
+  - unfold mk_q_nv in H. match type of H with (if ?b then _ else _) = _ => destruct b; [discriminate|] end.
+    destruct (nv_bad ns ver) eqn:E; try discriminate. exact (proj1 (nv_bad_false ns ver E)).
+  - unfold mk_q_nv in H. match type of H with (if ?b then _ else _) = _ => destruct b; [discriminate|] end.
+    destruct (nv_bad ns ver) eqn:E; try discriminate. exact (proj2 (nv_bad_false ns ver E)).
+  - unfold mk_core_nv, mk_simple_nv. rewrite H. destruct (negb (mem_bytes ty (enum_values OBJECT_TYPES))); [left|right]; reflexivity.
+  - unfold mk_ext_nv, mk_simple_nv. rewrite H. destruct (negb (mem_bytes ty (enum_values EXTENDED_OBJECT_TYPES))); [left|right]; reflexivity.
+  - intros. unfold mk_q_nv. rewrite H. destruct (negb (mem_bytes ty (enum_values OBJECT_TYPES))); [left|right]; reflexivity.
+Qed.
